@@ -288,6 +288,17 @@ Definition effective_perms (st : dstate) (m : fsmap) (f : list N) : N :=
   | None => get_permissions m f
   end.
 
+(* DeferredWriter::pending_write_to: the last deferred write to this path, unless it is the write of a rename / copy over a
+   name that exists -- and only when this section writes the file it reads: the source of a copy or a rename is the file as
+   it was before the run *)
+Definition pending_content (st : dstate) (m : fsmap) (file_to_patch output_file : list N) : option (list N) :=
+  if str_eqb file_to_patch output_file then
+    match find (fun d => str_eqb (d_dest d) file_to_patch) (rev (deferred_writes st)) with
+    | Some d => if d_newname d && exists_ m file_to_patch then None else Some (d_data d)
+    | None => None
+    end
+  else None.
+
 (* one section of the loop in process_patch, after the header has been parsed *)
 Definition process_section (o : options) (st : dstate) (should : bool) (p : patch) (s : stream)
   : M (dstate * stream) :=
@@ -312,10 +323,7 @@ Definition process_section (o : options) (st : dstate) (should : bool) (p : patc
   (* read the file to patch *)
   (* DeferredWriter::pending_write_to: the last deferred write to this path, unless it is the write of a rename / copy
      over a name that exists *)
-  let pending := match find (fun d => str_eqb (d_dest d) file_to_patch) (rev (deferred_writes st)) with
-                 | Some d => if d_newname d && exists_ m file_to_patch then None else Some (d_data d)
-                 | None => None
-                 end in
+  let pending := pending_content st m file_to_patch output_file in
   let! input_lines :=
     (match pending with
      | Some data => mret (split_lines data)
